@@ -746,18 +746,23 @@ pub fn case(rng: &mut Rng) -> F {
 /// n = 14, which the crash stream would report as a hang).  A panic of the real code during this
 /// pre-flight keeps the formula: it is exactly what the stream is looking for.
 pub fn tame(f: &F) -> bool {
+    use anthem::verif::simplifying_fol::sigma_0::{classic::CLASSIC, ht::HT, intuitionistic::INTUITIONISTIC};
     std::panic::set_hook(Box::new(|_| {}));
-    let f2 = f.clone();
-    let r = std::panic::catch_unwind(move || {
-        use anthem::verif::simplifying_fol::sigma_0::{classic::CLASSIC, ht::HT, intuitionistic::INTUITIONISTIC};
-        passes([INTUITIONISTIC, HT, CLASSIC].concat(), f2)
-    });
-    match r {
-        Err(_) => true,
-        Ok(Passes::Done(_, g, trace)) => trace.iter().all(|e| e[0] <= 3000) && tsize(&g) <= 3000,
-        Ok(Passes::FixpointDiffers(..)) => true,
-        Ok(_) => false,
+    // under the CLI's classic portfolio and under CLASSIC alone
+    for portfolio in [[INTUITIONISTIC, HT, CLASSIC].concat(), CLASSIC.to_vec()] {
+        let f2 = f.clone();
+        let r = std::panic::catch_unwind(move || passes(portfolio, f2));
+        let small = match r {
+            Err(_) => true,
+            Ok(Passes::Done(_, g, trace)) => trace.iter().all(|e| e[0] <= 3000) && tsize(&g) <= 3000,
+            Ok(Passes::FixpointDiffers(..)) => true,
+            Ok(_) => false,
+        };
+        if !small {
+            return false;
+        }
     }
+    true
 }
 pub fn tame_case(rng: &mut Rng) -> F {
     for _ in 0..20 {
